@@ -51,10 +51,10 @@ func verifLocal(trustDomain, datacenter, partition string) rbacLocalInfo {
 	return rbacLocalInfo{trustDomain: trustDomain, datacenter: datacenter, partition: partition}
 }
 
-// VerifMakeRBACRules is makeRBACRules (no JWT providers).
+// VerifMakeRBACRules is makeRBACRules.
 func VerifMakeRBACRules(ixns structs.SimplifiedIntentions, defaultAllow bool, trustDomain, datacenter, partition string,
-	isHTTP bool, bundles []*pbpeering.PeeringTrustBundle) (*envoy_rbac_v3.RBAC, error) {
-	return makeRBACRules(ixns, defaultAllow, verifLocal(trustDomain, datacenter, partition), isHTTP, bundles, nil)
+	isHTTP bool, bundles []*pbpeering.PeeringTrustBundle, providers map[string]*structs.JWTProviderConfigEntry) (*envoy_rbac_v3.RBAC, error) {
+	return makeRBACRules(ixns, defaultAllow, verifLocal(trustDomain, datacenter, partition), isHTTP, bundles, providers)
 }
 
 // VerifMakeRBACNetworkFilter is the function the listeners code calls for TCP listeners.
@@ -65,8 +65,8 @@ func VerifMakeRBACNetworkFilter(ixns structs.SimplifiedIntentions, defaultAllow 
 
 // VerifMakeRBACHTTPFilter is the function the listeners code calls for HTTP-like listeners.
 func VerifMakeRBACHTTPFilter(ixns structs.SimplifiedIntentions, defaultAllow bool, trustDomain, datacenter, partition string,
-	bundles []*pbpeering.PeeringTrustBundle) (*envoy_http_v3.HttpFilter, error) {
-	return makeRBACHTTPFilter(ixns, defaultAllow, verifLocal(trustDomain, datacenter, partition), bundles, nil)
+	bundles []*pbpeering.PeeringTrustBundle, providers map[string]*structs.JWTProviderConfigEntry) (*envoy_http_v3.HttpFilter, error) {
+	return makeRBACHTTPFilter(ixns, defaultAllow, verifLocal(trustDomain, datacenter, partition), bundles, providers)
 }
 
 func VerifMakeSpiffePattern(s VerifRBACSource) string { return makeSpiffePattern(s.svc()) }
